@@ -1090,12 +1090,16 @@ pub fn run(ctx: &mut Ctx) {
     enable_journal();
     let strat = || case().prop_map(tame);
     ctx.run_prop(&Sub, &strat, ctx.tier.pick(400_000, 12_000_000));
+    // field records in every shape (subsets of fields, offset with and without time fields, raw values): C17's merge
+    // sub-check run under this property's oracle too (its failures include panics and Assert-kind errors)
+    ctx.run_prop(&crate::props::c17::MergeSub, &crate::props::c17::merge_case, ctx.tier.pick(200_000, 4_000_000));
     ctx.run_release_profile();
 }
 
 pub fn replay(ctx: &mut Ctx, sub: &str, case: &Value) -> bool {
     match sub {
         "ops" => ctx.replay_case(&Sub, case),
+        "merge" => ctx.replay_case(&crate::props::c17::MergeSub, case),
         _ => false,
     }
 }
